@@ -140,6 +140,8 @@ def validate(module, cfg, trace_file, tag, timeout=1200):
     shutil.rmtree(meta, ignore_errors=True)
     n = 0
     hist = {}
+    cur_run = None
+    null_at = None      # first line carrying a JSON null (a call that panicked has no result): TLC cannot read it
     with open(trace_file) as f:
         for line in f:
             n += 1
@@ -148,6 +150,12 @@ def validate(module, cfg, trace_file, tag, timeout=1200):
                 j = line.find('"', i + 6)
                 k = line[i + 6:j]
                 hist[k] = hist.get(k, 0) + 1
+                if k == "Reset":
+                    m = re.search(r'"run":("[^"]*"|-?\d+)', line)
+                    if m:
+                        cur_run = m.group(1)
+            if null_at is None and ":null" in line:
+                null_at = (n, cur_run)
     if n == 0:
         return {"ok": True, "lines": 0, "violations": [], "known": [], "states": 0, "hist": {}}
     rc, out = tlc(module, cfg, meta, workers=1, env={"TRACE": trace_file}, timeout=timeout,
@@ -166,6 +174,9 @@ def validate(module, cfg, trace_file, tag, timeout=1200):
     m = re.search(r"(\d+) states generated", out)
     states = int(m.group(1)) if m else 0
     ok = rc == 0 and "No error has been found" in out
+    if not ok and not viol and null_at is not None and "unsupported JSON value null" in out:
+        # the code under test panicked inside a recorded call: that is data, not a tool error
+        viol.append({"clauses": ["PanicLeftCallWithoutResult"], "line": null_at[0], "run": [str(null_at[1])]})
     if not ok and not viol:
         errs = "\n".join(x for x in out.splitlines() if x.startswith("Error") or "rror:" in x)[:3000]
         raise ToolError("trace validation %s on %s failed without a verdict (rc=%d):\n%s\n...\n%s" % (
